@@ -282,12 +282,14 @@ structure Entry (ε : Type) where
   target : Str
   /-- the `Event` built when the `<send>` executed and moved into the closure -/
   event : ε
+  deriving DecidableEq
 
 structure Delivery (ε : Type) where
   time : Nat
   /-- `true`: the scheduled closure ran on the timer thread; `false`: `delay_ms == 0`, sent directly -/
   viaTimer : Bool
   entry : Entry ε
+  deriving DecidableEq
 
 /-- one session's state as far as delayed sends are concerned -/
 structure Timer (δ ε : Type) where
